@@ -3821,9 +3821,19 @@ static void scan_globals(void) {
     }
 
     // If there's another definition, the tentative definition
-    // is redundant
-    if (!var2)
-      cur = cur->next = var;
+    // is redundant. The one that stays has the composite type:
+    // "int a[]; int a[5];" defines an array of five elements.
+    if (var2) {
+      if (var2->ty->kind == TY_ARRAY && var2->ty->size < 0 && var->ty->size >= 0)
+        var2->ty = var->ty;
+      continue;
+    }
+
+    // [https://www.sigbus.info/n1570#6.9.2p5] An array whose type is
+    // still incomplete at the end of the translation unit has one element.
+    if (var->ty->kind == TY_ARRAY && var->ty->size < 0)
+      var->ty = array_of(var->ty->base, 1);
+    cur = cur->next = var;
   }
 
   cur->next = NULL;
